@@ -166,6 +166,45 @@ func main() {
 	}
 }
 
+// customKind spells out what a hand-written rule of the given kind decides.
+func customKind(k string) string {
+	switch k {
+	case "PROV":
+		return "PROV value-provenance of an argument / stored value"
+	case "REG":
+		return "REG table / registry agreement"
+	case "SYM":
+		return "SYM sibling agreement"
+	case "COPY":
+		return "COPY field coverage and deep-copy freshness"
+	case "WSET":
+		return "WSET type-resolved write-set inventory"
+	case "LOCK":
+		return "LOCK lockset discipline"
+	case "PHI":
+		return "PHI loop-carried value flow"
+	case "FCOV":
+		return "FCOV field coverage"
+	case "ORD":
+		return "ORD comparator shape (linear forms)"
+	case "RET":
+		return "RET returned-view composition"
+	case "CONE":
+		return "CONE call-graph no-reach"
+	case "TT":
+		return "TT exact truth table of a small predicate"
+	case "DOM":
+		return "DOM guarded-effect (cut-set dominance)"
+	case "MPT":
+		return "MPT must-pass-on-success"
+	case "POST":
+		return "POST must-follow"
+	case "WMC":
+		return "WMC who-may-call inventory"
+	}
+	return k
+}
+
 func propIDs() []string {
 	var ids []string
 	for id := range core.Registry {
@@ -268,11 +307,22 @@ func writeManifest(vdir string) {
 			case core.ERRFLOW:
 				kinds["ERRFLOW failed-result-does-not-reach-effect"] = true
 			case core.Custom:
-				kinds[x.Kind] = true
+				kinds[customKind(x.Kind)] = true
 			}
 		}
 		var ks []string
 		for k := range kinds {
+			if !strings.Contains(k, " ") {
+				dup := false
+				for k2 := range kinds {
+					if strings.HasPrefix(k2, k+" ") {
+						dup = true
+					}
+				}
+				if dup {
+					continue
+				}
+			}
 			ks = append(ks, k)
 		}
 		sort.Strings(ks)
